@@ -399,7 +399,11 @@ pub fn run_semantic(prop: &str, trace: &Trace, env: &Env, opts: &SemOpts) -> Run
                         Line::Sem(st) => {
                             if judge_line(&mut rep, ei, prop, st, &rendered[i], slot, envm, &w, env, t) { rep.judged += 1; } else { rep.unjudged += 1; }
                         }
-                        Line::Raw(_) => { rep.unjudged += 1; }
+                        Line::Raw(raw) => {
+                            rep.unjudged += 1;
+                            // a raw line that binds a name: the model does not know what to
+                            if let Some((lhs, _)) = raw.split_once('=') { let key = lhs.trim().to_lowercase(); envm.vals.remove(&key); envm.poisoned.insert(key); }
+                        }
                     }
                 }
                 rep.states.insert(crate::prng::fnv64(format!("{:?}|{:?}|{}|{}", w.cfg.zone, envm.vals.iter().map(|(k, v)| (k.clone(), v.kind())).collect::<Vec<_>>(), envm.poisoned.len(), utc_days(t) % 366).as_bytes()));
